@@ -695,8 +695,10 @@ fn gen_call(w: &World, rng: &mut Rng, idx: usize, st: &mut ApiStats, fuzzing: bo
                 0 | 1 if hungry => {
                     let t = match rng.below(4) {
                         0 => small_type(rng),
+                        // size estimate = element bits x (entries + 1), per-node limit 1000, context-wide budget 10000
                         1 => array_type(vec![900], BIT),
-                        _ => array_type(vec![15], UINT64),
+                        2 => array_type(vec![110], UINT8),
+                        _ => array_type(vec![14], UINT64),
                     };
                     ACall::AddNode { graph: g, op: Operation::Input(t), deps: vec![], gdeps: vec![] }
                 }
